@@ -218,59 +218,41 @@ theorem specStep_sim {pt : Int} {es es' acc : List (Ev D)} {hb : Ev D} (hs : Sor
 /-! ## the loop over an abstract backend -/
 
 /-- The loop theorem for a backend given by `view`, `Inv` and its loop body `step`, under the
-    per-step refinement `hstep`. `Q` is a property of events the backend may need of every stored
-    event and every heartbeat (Sqlite: ends at or after the epoch); it is kept by merging. -/
+    per-step refinement `hstep`. (Until the repair F22 the theorem carried a property `Q` of
+    events, needed of every stored event and every heartbeat and kept by merging — Sqlite: "ends at
+    or after the epoch"; no backend needs one any more.) -/
 theorem foldE_loop {σ : Type} (view : σ → View D) (Inv : σ → Prop)
-    (step : σ → Ev D → Except Err σ) (pt : Int) (b : String) (Q : Ev D → Prop)
-    (hQid : ∀ (e : Ev D) (i : Option Int), Q e → Q { e with id := i })
-    (hQm : ∀ l hb m : Ev D, merge pt l hb = some m → Q l → Q hb → Q m)
+    (step : σ → Ev D → Except Err σ) (pt : Int) (b : String)
     (hids : ∀ s m es, Inv s → view s b = some (m, es) → IdsOk es)
-    (hstep : ∀ s hb m es, Inv s → view s b = some (m, es) → (∀ x ∈ es, Q x) → Q hb →
+    (hstep : ∀ s hb m es, Inv s → view s b = some (m, es) →
       ∃ s', step s hb = .ok s' ∧ Inv s' ∧ (∃ es', view s' b = some (m, es') ∧ SpecStep pt es hb es') ∧
         ∀ b', b' ≠ b → view s' b' = view s b') :
     ∀ (stream : List (Ev D)) (s : σ) (m : Meta) (es acc : List (Ev D)), Inv s →
-      view s b = some (m, es) → Sorted es → (∀ x ∈ es, Q x) → (∀ x ∈ stream, Q x) →
+      view s b = some (m, es) → Sorted es →
       acc.map noId = es.reverse.map noId → (∀ e ∈ es, ∀ x ∈ stream, e.ts < x.ts) →
       stream.Pairwise (fun a c => a.ts < c.ts) →
       ∃ s', foldE step s stream = .ok s' ∧ Inv s' ∧
-        (∃ es', view s' b = some (m, es') ∧ Sorted es' ∧ (∀ x ∈ es', Q x) ∧
+        (∃ es', view s' b = some (m, es') ∧ Sorted es' ∧
           es'.map noId = (reduceAux pt acc stream).map noId) ∧
         ∀ b', b' ≠ b → view s' b' = view s b'
-  | [], s, m, es, acc, hI, hv, hs, hq, _, hacc, _, _ => by
-    refine ⟨s, rfl, hI, ⟨es, hv, hs, hq, ?_⟩, fun _ _ => rfl⟩
+  | [], s, m, es, acc, hI, hv, hs, hacc, _, _ => by
+    refine ⟨s, rfl, hI, ⟨es, hv, hs, ?_⟩, fun _ _ => rfl⟩
     simp only [reduceAux]
     rw [List.map_reverse, hacc, List.map_reverse, List.reverse_reverse]
-  | hb :: rest, s, m, es, acc, hI, hv, hs, hq, hqs, hacc, hlt, hp => by
+  | hb :: rest, s, m, es, acc, hI, hv, hs, hacc, hlt, hp => by
     have hp' := List.pairwise_cons.mp hp
-    obtain ⟨s1, hs1, hI1, ⟨es1, hv1, hst⟩, hfr1⟩ :=
-      hstep s hb m es hI hv hq (hqs hb List.mem_cons_self)
+    obtain ⟨s1, hs1, hI1, ⟨es1, hv1, hst⟩, hfr1⟩ := hstep s hb m es hI hv
     have hid := hids s m es hI hv
     have hsort := specStep_sorted hs hid (fun e he => hlt e he hb List.mem_cons_self) hst
     obtain ⟨acc1, hacc1, hred⟩ := specStep_sim hs hid hacc hst
-    have hq1 : ∀ x ∈ es1, Q x := by
-      have hqhb := hqs hb List.mem_cons_self
-      rcases specStep_cases hs hid hst with ⟨_, i, he⟩ | ⟨pre, l, m', he, hm, he'⟩ | ⟨pre, l, i, _, _, _, he'⟩
-      · intro x hx; rw [he, List.mem_singleton] at hx; subst hx; exact hQid hb _ hqhb
-      · intro x hx
-        rw [he'] at hx
-        rcases List.mem_append.mp hx with hx | hx
-        · exact hq x (by rw [he]; exact List.mem_append_left _ hx)
-        · rw [List.mem_singleton] at hx; subst hx
-          exact hQm l hb x hm (hq l (by rw [he]; simp)) hqhb
-      · intro x hx
-        rw [he'] at hx
-        rcases List.mem_append.mp hx with hx | hx
-        · exact hq x hx
-        · rw [List.mem_singleton] at hx; subst hx; exact hQid hb _ hqhb
     have hlt1 : ∀ e ∈ es1, ∀ x ∈ rest, e.ts < x.ts := by
       intro e he x hx
       have h1 := hsort.2 e he
       have h2 := hp'.1 x hx
       omega
-    obtain ⟨s2, hs2, hI2, ⟨es2, hv2, hsort2, hq2, hres⟩, hfr2⟩ :=
-      foldE_loop view Inv step pt b Q hQid hQm hids hstep rest s1 m es1 acc1 hI1 hv1 hsort.1 hq1
-        (fun x hx => hqs x (List.mem_cons_of_mem _ hx)) hacc1 hlt1 hp'.2
-    refine ⟨s2, ?_, hI2, ⟨es2, hv2, hsort2, hq2, ?_⟩, ?_⟩
+    obtain ⟨s2, hs2, hI2, ⟨es2, hv2, hsort2, hres⟩, hfr2⟩ :=
+      foldE_loop view Inv step pt b hids hstep rest s1 m es1 acc1 hI1 hv1 hsort.1 hacc1 hlt1 hp'.2
+    refine ⟨s2, ?_, hI2, ⟨es2, hv2, hsort2, ?_⟩, ?_⟩
     · simp only [foldE, hs1]; exact hs2
     · rw [hres, hred]
     · intro b' hb'; rw [hfr2 b' hb', hfr1 b' hb']
@@ -291,17 +273,17 @@ theorem foldE_append {σ α ε : Type} (f : σ → α → Except ε σ) (s s1 : 
 
 /-- one turn of the loop body on a sorted bucket: all events but the last are unchanged -/
 theorem step_shape {σ : Type} (view : σ → View D) (Inv : σ → Prop)
-    (step : σ → Ev D → Except Err σ) (pt : Int) (b : String) (Q : Ev D → Prop)
+    (step : σ → Ev D → Except Err σ) (pt : Int) (b : String)
     (hids : ∀ s m es, Inv s → view s b = some (m, es) → IdsOk es)
-    (hstep : ∀ s hb m es, Inv s → view s b = some (m, es) → (∀ x ∈ es, Q x) → Q hb →
+    (hstep : ∀ s hb m es, Inv s → view s b = some (m, es) →
       ∃ s', step s hb = .ok s' ∧ Inv s' ∧ (∃ es', view s' b = some (m, es') ∧ SpecStep pt es hb es') ∧
         ∀ b', b' ≠ b → view s' b' = view s b')
     (s : σ) (hb : Ev D) (m : Meta) (es : List (Ev D)) (hI : Inv s) (hv : view s b = some (m, es))
-    (hs : Sorted es) (hq : ∀ x ∈ es, Q x) (hqb : Q hb) :
+    (hs : Sorted es) :
     ∃ s' x, step s hb = .ok s' ∧ Inv s' ∧
       (view s' b = some (m, es.dropLast ++ [x]) ∨ view s' b = some (m, es ++ [x])) ∧
       ∀ b', b' ≠ b → view s' b' = view s b' := by
-  obtain ⟨s', h1, hI', ⟨es', hv', hst⟩, hfr⟩ := hstep s hb m es hI hv hq hqb
+  obtain ⟨s', h1, hI', ⟨es', hv', hst⟩, hfr⟩ := hstep s hb m es hI hv
   obtain ⟨x, hx⟩ := specStep_shape hs (hids s m es hI hv) hst
   refine ⟨s', x, h1, hI', ?_, hfr⟩
   rcases hx with hx | hx
@@ -311,27 +293,23 @@ theorem step_shape {σ : Type} (view : σ → View D) (Inv : σ → Prop)
 /-- every turn of a run from the empty bucket: after the heartbeats `pre` the bucket holds `es1`;
     the next heartbeat `hb` leaves `es1.dropLast ++ [x]` or `es1 ++ [x]` -/
 theorem foldE_prefix {σ : Type} (view : σ → View D) (Inv : σ → Prop)
-    (step : σ → Ev D → Except Err σ) (pt : Int) (b : String) (Q : Ev D → Prop)
-    (hQid : ∀ (e : Ev D) (i : Option Int), Q e → Q { e with id := i })
-    (hQm : ∀ l hb m : Ev D, merge pt l hb = some m → Q l → Q hb → Q m)
+    (step : σ → Ev D → Except Err σ) (pt : Int) (b : String)
     (hids : ∀ s m es, Inv s → view s b = some (m, es) → IdsOk es)
-    (hstep : ∀ s hb m es, Inv s → view s b = some (m, es) → (∀ x ∈ es, Q x) → Q hb →
+    (hstep : ∀ s hb m es, Inv s → view s b = some (m, es) →
       ∃ s', step s hb = .ok s' ∧ Inv s' ∧ (∃ es', view s' b = some (m, es') ∧ SpecStep pt es hb es') ∧
         ∀ b', b' ≠ b → view s' b' = view s b')
     (s : σ) (m : Meta) (pre : List (Ev D)) (hb : Ev D) (hI : Inv s) (hv : view s b = some (m, []))
-    (hqs : ∀ x ∈ pre ++ [hb], Q x) (hp : (pre ++ [hb]).Pairwise (fun a c => a.ts < c.ts)) :
+    (hp : (pre ++ [hb]).Pairwise (fun a c => a.ts < c.ts)) :
     ∃ s1 s2 es1 x, foldE step s pre = .ok s1 ∧ view s1 b = some (m, es1) ∧
       step s1 hb = .ok s2 ∧ foldE step s (pre ++ [hb]) = .ok s2 ∧
       (view s2 b = some (m, es1.dropLast ++ [x]) ∨ view s2 b = some (m, es1 ++ [x])) ∧
       ∀ b', b' ≠ b → view s2 b' = view s b' := by
   rw [List.pairwise_append] at hp
-  obtain ⟨s1, hf1, hI1, ⟨es1, hv1, hs1, hq1, _⟩, hfr1⟩ :=
-    foldE_loop view Inv step pt b Q hQid hQm hids hstep pre s m [] [] hI hv sorted_nil
-      (fun x hx => by cases hx) (fun x hx => hqs x (List.mem_append_left _ hx)) rfl
+  obtain ⟨s1, hf1, hI1, ⟨es1, hv1, hs1, _⟩, hfr1⟩ :=
+    foldE_loop view Inv step pt b hids hstep pre s m [] [] hI hv sorted_nil rfl
       (fun e he => by cases he) hp.1
   obtain ⟨s2, x, hst, _, hsh, hfr2⟩ :=
-    step_shape view Inv step pt b Q hids hstep s1 hb m es1 hI1 hv1 hs1 hq1
-      (hqs hb (List.mem_append_right _ (List.mem_singleton.mpr rfl)))
+    step_shape view Inv step pt b hids hstep s1 hb m es1 hI1 hv1 hs1
   refine ⟨s1, s2, es1, x, hf1, hv1, hst, ?_, hsh, ?_⟩
   · rw [foldE_append _ _ _ _ _ hf1]
     simp only [foldE, hst]
